@@ -184,7 +184,7 @@ TEXT = {
         "technique": "Lean 4 proof (abstract locality theorem + lexer truncation/shift invariance + splitter characterisation) + regenerated facts + predicate on the implementation",
     },
     "C16": {
-        "level": "Proof (partial). Lexer half proved in Lean for every input: if x lexes to ts and x' re-spells ts (arbitrary new whitespace/comments subject to the two separation side conditions, any case for keywords and unquoted identifiers) then x' lexes to tokens with the same kinds, bases and decoded values (MF.Props.C16.trivia_lemma). Parser half: regenerated facts show parser.go never reads Token.Space or Token.Comments and reads Token.Raw only for error messages, keyword tests, literal spellings and the >> split (token_uses); that the tree depends on the tokens only through kind/AsString/Base is explored on the real entry points: each accepted input is re-spelled and must parse to the same tree. PROVED end to end for the expression fragment M1 (MF/Props/C16Expr.lean, respell_expr_partial): an accepted ParseExpr input, re-spelled in its trivia and keyword case, is accepted and parses to the same tree (lexer theorem composed with soundness/completeness of the expression model; identifier tokens keep their bytes; no identifier reads SAFE_CAST / REPLACE_FIELDS).",
+        "level": "Proof (partial). Lexer half proved in Lean for every input: if x lexes to ts and x' re-spells ts (arbitrary new whitespace/comments subject to the two separation side conditions, any case for keywords and unquoted identifiers) then x' lexes to tokens with the same kinds, bases and decoded values (MF.Props.C16.trivia_lemma). Parser half: regenerated facts show parser.go never reads Token.Space or Token.Comments and reads Token.Raw only for error messages, keyword tests, literal spellings and the >> split (token_uses); that the tree depends on the tokens only through kind/AsString/Base is explored on the real entry points: each accepted input is re-spelled and must parse to the same tree. PROVED end to end for the expression fragment M1 (MF/Props/C16Expr.lean, respell_expr_partial): an accepted ParseExpr input, re-spelled in its trivia and keyword case, is accepted and parses to the same tree (lexer theorem composed with soundness/completeness of the expression model; identifier tokens keep their bytes; no identifier reads SAFE_CAST / REPLACE_FIELDS), and for the ParseType entry point (MF/Props/C16Types.lean, respell_type: the re-spelled type parses to a tree equal up to position values, same SQL() text).",
         "design_ref": "DESIGN.md §4 C16",
         "note": "The theorem is about the Lean lexer model, tied to lexer.go by the LEX channel on every run. The parser half is exploration. Known findings are listed in known-findings.txt.",
         "technique": "Lean 4 theorem over the lexer model (simulation of nextToken under re-spelling) + LEX/TREE correspondence channels + property predicate evaluated on the implementation",
